@@ -1,6 +1,8 @@
 """Unit `tables`: every number<->name conversion table of the crate, verified against registry
 spec functions generated from spec/registry.py (an independent transcription of the IANA/RFC
 registries), plus the 2-bit message-type field (C05)."""
+import re
+
 from vf.unit import Unit
 from . import common
 
@@ -62,25 +64,15 @@ def build(repo):
     u.assemble()
     common.common_rules(u, linked_list=(0, 0))
     u.rule('R12:unreachable', r'_ => unreachable!\(\),',
-           '_ => { proof { let x = self.ver_type_tkl; assert((0x30 & x) >> 4 <= 3) by (bit_vector); } unreachable!() }', 1)
+           '_ => { unreachable!() }', 1)
     u.contract(('impl Header', 'get_type'),
                '        ensures r == type_of_bits(((self.ver_type_tkl as int) / 16) % 4)', props=PROPS)
-    u.body_start(('impl Header', 'get_type'),
-                 '        proof { let x = self.ver_type_tkl; assert((0x30 & x) >> 4 == (x / 16) % 4) by (bit_vector); }')
     u.contract(('impl Header', 'set_type'),
                '''        ensures
             ((final(self).ver_type_tkl as int) / 16) % 4 == bits_of_type(t),
             (final(self).ver_type_tkl as int) / 64 == (old(self).ver_type_tkl as int) / 64,
             (final(self).ver_type_tkl as int) % 16 == (old(self).ver_type_tkl as int) % 16,
             final(self).code == old(self).code, final(self).message_id == old(self).message_id''', props=PROPS + ['C01'])
-    u.after(('impl Header', 'set_type'), r'let ver_tkl = (?:self\.ver_type_tkl & )?(\w+)(?: & self\.ver_type_tkl)?;',
-            '''        proof {
-            let x = self.ver_type_tkl; let tn8: u8 = tn;
-            assert((\\g<1> & x) == (x & \\g<1>)) by (bit_vector);
-            assert forall|a: u8, b: u8| #[trigger] (a | b) == (b | a) by { assert((a | b) == (b | a)) by (bit_vector); }
-            assert(tn8 <= 3 ==> ((tn8 << 4 | (\\g<1> & x)) / 16) % 4 == tn8) by (bit_vector);
-            assert(tn8 <= 3 ==> (tn8 << 4 | (\\g<1> & x)) / 64 == x / 64) by (bit_vector);
-            assert(tn8 <= 3 ==> (tn8 << 4 | (\\g<1> & x)) % 16 == x % 16) by (bit_vector);
-        }''', expand=True)
+    common.header_bit_hints(u, 'impl Header', fns=('set_type', 'get_type'))
     u.finish(common.HEAD)
     return u
